@@ -49,6 +49,19 @@ theorem sampled_pattern_has_witness (T : CharTable) (hT : Consistent T) (o : Opt
     ∀ p ∈ ps, ∃ s ∈ (clean o.stripOpt o.removeEmpties items).strings, Matches T E (wrapWs w p) s :=
   C03.SampledLemmas.extractSampled_witness T hT o hsz cfg pick hp items ps E w h
 
+/-- … for every Size setting (the code reads the cap as `max(cap, 1)`: see C03 `extract_sound_every_size`) -/
+theorem each_pattern_has_witness_every_size (T : CharTable) (hT : Consistent T) (o : Opts) (cl : Cleaned)
+    (ps : List Pattern) (E : List Char) (h : batchExtract T o.norm cl = some (ps, E)) :
+    ∀ p ∈ ps, ∃ s ∈ cl.strings, Matches T E (wrapWs (decide (cl.nStripped > 0)) p) s :=
+  each_pattern_has_witness T hT o.norm (Nat.le_max_right _ _) cl ps E h
+
+theorem sampled_pattern_has_witness_every_size (T : CharTable) (hT : Consistent T) (o : Opts)
+    (cfg : SampleCfg) (pick : Pick) (hp : C03.SampledLemmas.PickOK pick)
+    (items : List (Option Line × Nat)) (ps : List Pattern) (E : List Char) (w : Bool)
+    (h : extractSampled T o.norm cfg pick items = some (ps, E, w)) :
+    ∀ p ∈ ps, ∃ s ∈ (clean o.stripOpt o.removeEmpties items).strings, Matches T E (wrapWs w p) s :=
+  sampled_pattern_has_witness T hT o.norm (Nat.le_max_right _ _) cfg pick hp items ps E w h
+
 /-- every rendered expression starts with `^` and ends with `$` -/
 theorem anchored (E : List Char) (dialect : Nat) (tagged wsWrap : Bool) (p : Pattern) :
     (patternText E dialect tagged wsWrap p).head? = some '^' ∧
